@@ -265,6 +265,17 @@ func TestC17(t *testing.T) {
 			bad("the socket directory handed to the runner (%s) is %s", r.SocketDir, r.SocketDirState)
 		}
 		if c.Host.SkipHostEnv {
+			// nothing but go-plugin's own variables, the cookie and what the caller put into Cmd.Env (whatever its name: the host
+			// process itself carries TMPDIR, HOME, PATH and a marker)
+			for k := range eff {
+				_, fromCaller := c.Ambient[k]
+				switch {
+				case strings.HasPrefix(k, "PLUGIN_"), k == cookieKey, fromCaller && c.Host.AmbientInCmd:
+				case cmdLaunch && (k == "PWD" || k == "OLDPWD" || k == "SHLVL" || k == "_"): // the observing shell's own
+				default:
+					bad("SkipHostEnv: variable %s=%q reached the launched command; it is neither go-plugin's nor the caller's", k, eff[k])
+				}
+			}
 			for _, k := range []string{"UNRELATED_MARKER", "VERIF_HOST_MARKER", "HOME", "PATH"} {
 				if k == "UNRELATED_MARKER" && c.Host.AmbientInCmd {
 					continue // put into Cmd.Env by the caller: not a host variable
